@@ -148,7 +148,7 @@ func genOpts(g *Gen, positions bool) {
 				}
 			}
 		}
-		if g.Thorough() {
+		if g.Thorough() || kind == "generic" || kind == "csv" {
 			// one line far longer than 65535 columns, many lines, many tokens
 			g.Run("giant inputs:"+kind, []Ev{{"op": "tok", "kind": kind, "opts": []any{}, "input": cpsR([]rune(strings.Repeat("a", 70000) + " b\nc"))}})
 			g.Run("giant inputs:"+kind, []Ev{{"op": "tok", "kind": kind, "opts": []any{}, "input": cpsR([]rune(strings.Repeat("\n", 70000) + "b c"))}})
